@@ -1,4 +1,5 @@
 import Dashu.Proofs.Int.Div
+import Dashu.Proofs.Int.NumModular
 import Dashu.Props.GenInt
 /-
   C02 — Integer division obeys the division identity with documented conventions; division
@@ -11,13 +12,15 @@ import Dashu.Props.GenInt
 
   Structure:
   * §1 conventions: what `Int.tdiv/tmod` and `Int.ediv/emod` mean (identity, range, sign);
-  * §2 kernels: word / double-word divisors, Knuth D step and loop, Burnikel–Ziegler (relative
-        to the contract of `mul::add_signed_mul`), multi-word division;
+  * §2 kernels: word / double-word divisors, Knuth D step and loop, Burnikel–Ziegler (with
+        C01's proved multiplication; theorems through it need `4 ≤ W`), multi-word division;
   * §3 dispatch: `/`, `%`, `div_rem` on magnitudes = `Nat` `/ %`, zero divisor = DivideByZero;
   * §4 sign tables: the executable glue of the model equals the glue REGENERATED from /repo
         (`Dashu.Gen`, Tie A), whose meaning is proved in `Dashu.Props.GenInt`; hence every IBig /
         mixed form equals `Int.tdiv/tmod` resp. `Int.ediv/emod`; zero divisor = DivideByZero;
-  * §5 ConstDivisor = plain division.
+  * §5 ConstDivisor = plain division;
+  * §6 the num-modular dividers (Möller–Granlund 2-by-1, 3-by-2, reciprocals) mirrored and proved
+        equal to floor division: the division model's contract parameters are discharged.
 -/
 namespace Dashu.Props.C02
 open Dashu Dashu.Model Dashu.Model.Div Dashu.Gen Dashu.GluePrelude
@@ -99,66 +102,67 @@ theorem simple_div_rem_exact (W : Nat) (hW : 1 ≤ W) (lhs rhs : List Nat) (hn :
     `small_quotient` calls, the quotient estimate from the top `m` divisor words, the
     `add_signed_mul` / conditional `sub_same_len` update and the `while rem_overflow < 0` correction
     loop — which terminates within the model's fuel — and all its `assert!`/`debug_assert!`s):
-    lhs becomes [lhs % rhs, lhs / rhs] with quotient carry ≤ 1.  Relative to the CONTRACT of
-    `mul::add_signed_mul` (`subMulContract`; multiplication is C01's subject). -/
-theorem burnikel_ziegler_exact (W : Nat) (hW : 1 ≤ W) (lhs rhs : List Nat)
+    lhs becomes [lhs % rhs, lhs / rhs] with quotient carry ≤ 1.  The multiplication it calls is
+    C01's mirrored `addSignedMul` (schoolbook / Karatsuba / Toom-3), discharged by
+    `addSignedMul_contract` — no hypothesis about multiplication remains (`4 ≤ W` comes from there). -/
+theorem burnikel_ziegler_exact (W : Nat) (hW : 1 ≤ W) (hW4 : 4 ≤ W) (lhs rhs : List Nat)
     (hn : thresholdSimple < rhs.length) (hm : rhs.length + thresholdSimple < lhs.length)
     (hl : IsWords W lhs) (hr : IsWords W rhs) (hnorm : 2 ^ (W * rhs.length) ≤ 2 * val W rhs) :
     ∃ out c, bzDivRemInPlace W lhs rhs (highestDword W rhs) = .ok (out, c) ∧
       out.length = lhs.length ∧ IsWords W out ∧ c ≤ 1 ∧ val W (out.take rhs.length) < val W rhs ∧
       (val W (out.drop rhs.length) + c * 2 ^ (W * (lhs.length - rhs.length))) * val W rhs
         + val W (out.take rhs.length) = val W lhs :=
-  bzDivRemInPlace_spec W hW lhs rhs hn hm hl hr hnorm
+  bzDivRemInPlace_spec W hW hW4 lhs rhs hn hm hl hr hnorm
 
 /-- `div_rem_large` / `div_large` / `rem_large` (normalize, shifted dividend with `q_top`,
     in-place division, remainder shift-back with its `debug_assert_zero!`, `erase_front`):
     exact quotient and remainder, canonical results -/
-theorem div_rem_large_exact (W : Nat) (hW : 1 ≤ W) (lhs rhs : List Nat) (hl : IsWords W lhs)
+theorem div_rem_large_exact (W : Nat) (hW : 1 ≤ W) (hW4 : 4 ≤ W) (lhs rhs : List Nat) (hl : IsWords W lhs)
     (hr : IsWords W rhs) (hn : 2 ≤ rhs.length) (hm : rhs.length ≤ lhs.length)
     (htop : rhs.getD (rhs.length - 1) 0 ≠ 0) :
     (∃ q r, divRemLarge W lhs rhs = .ok (q, r) ∧ q.value W = val W lhs / val W rhs ∧
       r.value W = val W lhs % val W rhs ∧ q.Canon W ∧ r.Canon W) ∧
     (∃ q, divLarge W lhs rhs = .ok q ∧ q.value W = val W lhs / val W rhs ∧ q.Canon W) ∧
     (∃ r, remLarge W lhs rhs = .ok r ∧ r.value W = val W lhs % val W rhs ∧ r.Canon W) :=
-  divRemLarge_spec W hW lhs rhs hl hr hn hm htop
+  divRemLarge_spec W hW hW4 lhs rhs hl hr hn hm htop
 
 -- ================================================================== §3 dispatch (UBig forms)
 
 /-- `UBig::div_rem` / `div_rem_euclid` / `div_rem_assign`: `(a / b, a % b)`; `b = 0` panics with
     the documented divide-by-zero message -/
-theorem ubig_div_rem_exact (W : Nat) (hW : 1 ≤ W) (a b : TRepr) (ha : a.Canon W) (hb : b.Canon W) :
+theorem ubig_div_rem_exact (W : Nat) (hW : 1 ≤ W) (hW4 : 4 ≤ W) (a b : TRepr) (ha : a.Canon W) (hb : b.Canon W) :
     (b.value W = 0 → divRemRepr W a b = .error .divideByZero) ∧
     (b.value W ≠ 0 → ∃ q r, divRemRepr W a b = .ok (q, r) ∧ q.value W = a.value W / b.value W ∧
       r.value W = a.value W % b.value W ∧ q.Canon W ∧ r.Canon W) :=
-  divRemRepr_spec W hW a b ha hb
+  divRemRepr_spec W hW hW4 a b ha hb
 
 /-- `UBig / UBig`, `div_euclid`, `/=` -/
-theorem ubig_div_exact (W : Nat) (hW : 1 ≤ W) (a b : TRepr) (ha : a.Canon W) (hb : b.Canon W) :
+theorem ubig_div_exact (W : Nat) (hW : 1 ≤ W) (hW4 : 4 ≤ W) (a b : TRepr) (ha : a.Canon W) (hb : b.Canon W) :
     (b.value W = 0 → divRepr W a b = .error .divideByZero) ∧
     (b.value W ≠ 0 → ∃ q, divRepr W a b = .ok q ∧ q.value W = a.value W / b.value W ∧ q.Canon W) :=
-  divRepr_spec W hW a b ha hb
+  divRepr_spec W hW hW4 a b ha hb
 
 /-- `UBig % UBig`, `rem_euclid`, `%=` (a separate code path: `rem_by_word` / `rem_by_dword`) -/
-theorem ubig_rem_exact (W : Nat) (hW : 1 ≤ W) (a b : TRepr) (ha : a.Canon W) (hb : b.Canon W) :
+theorem ubig_rem_exact (W : Nat) (hW : 1 ≤ W) (hW4 : 4 ≤ W) (a b : TRepr) (ha : a.Canon W) (hb : b.Canon W) :
     (b.value W = 0 → remRepr W a b = .error .divideByZero) ∧
     (b.value W ≠ 0 → ∃ r, remRepr W a b = .ok r ∧ r.value W = a.value W % b.value W ∧ r.Canon W) :=
-  remRepr_spec W hW a b ha hb
+  remRepr_spec W hW hW4 a b ha hb
 
 /-- the division identity for the unsigned forms, spelled out -/
-theorem ubig_division_identity (W : Nat) (hW : 1 ≤ W) (a b : TRepr) (ha : a.Canon W) (hb : b.Canon W)
+theorem ubig_division_identity (W : Nat) (hW : 1 ≤ W) (hW4 : 4 ≤ W) (a b : TRepr) (ha : a.Canon W) (hb : b.Canon W)
     (hne : b.value W ≠ 0) :
     ∃ q r, divRemRepr W a b = .ok (q, r) ∧
       a.value W = q.value W * b.value W + r.value W ∧ r.value W < b.value W := by
-  obtain ⟨q, r, e, hq, hr, _, _⟩ := (divRemRepr_spec W hW a b ha hb).2 hne
+  obtain ⟨q, r, e, hq, hr, _, _⟩ := (divRemRepr_spec W hW hW4 a b ha hb).2 hne
   refine ⟨q, r, e, ?_, ?_⟩
   · rw [hq, hr, Nat.mul_comm]; exact (Nat.div_add_mod _ _).symm
   · rw [hr]; exact Nat.mod_lt _ (Nat.pos_of_ne_zero hne)
 
 /-- `UBig::is_multiple_of`: true exactly when the remainder is zero; a zero divisor panics -/
-theorem ubig_is_multiple_of_exact (W : Nat) (hW : 1 ≤ W) (a b : TRepr) (ha : a.Canon W) (hb : b.Canon W) :
+theorem ubig_is_multiple_of_exact (W : Nat) (hW : 1 ≤ W) (hW4 : 4 ≤ W) (a b : TRepr) (ha : a.Canon W) (hb : b.Canon W) :
     (b.value W = 0 → ubigIsMultipleOf W a b = .error .divideByZero) ∧
     (b.value W ≠ 0 → ubigIsMultipleOf W a b = .ok (decide (a.value W % b.value W = 0))) := by
-  have ⟨d0, d1⟩ := remRepr_spec W hW a b ha hb
+  have ⟨d0, d1⟩ := remRepr_spec W hW hW4 a b ha hb
   constructor
   · intro h0; simp only [ubigIsMultipleOf, d0 h0, bind, Except.bind]
   · intro hne
@@ -236,12 +240,12 @@ theorem cast_mod_zero (m n : Nat) : decide ((m : Int) % (n : Int) = 0) = decide 
 
 /-- `IBig / IBig` (and `IBig / UBig`, `UBig / IBig`, `/=`): the model's glue is the regenerated
     `impl_ibig_div`, hence truncating division; a zero divisor panics -/
-theorem ibig_div_exact (W : Nat) (hW : 1 ≤ W) (a b : SRepr) (ha : a.WF W) (hb : b.WF W) :
+theorem ibig_div_exact (W : Nat) (hW : 1 ≤ W) (hW4 : 4 ≤ W) (a b : SRepr) (ha : a.WF W) (hb : b.WF W) :
     (b.value W = 0 → ibigDiv W a b = .error .divideByZero) ∧
     (b.value W ≠ 0 → ∃ q, ibigDiv W a b = .ok q ∧ q.WF W ∧
       q.value W = impl_ibig_div (sgn a.neg) (a.mag.value W) (sgn b.neg) (b.mag.value W) ∧
       q.value W = Int.tdiv (a.value W) (b.value W)) := by
-  have ⟨d0, d1⟩ := divRepr_spec W hW a.mag b.mag ha.1 hb.1
+  have ⟨d0, d1⟩ := divRepr_spec W hW hW4 a.mag b.mag ha.1 hb.1
   constructor
   · intro h0
     simp only [ibigDiv, d0 ((srepr_value_zero_iff W b).mp h0), bind, Except.bind]
@@ -260,12 +264,12 @@ theorem ibig_div_exact (W : Nat) (hW : 1 ≤ W) (a b : SRepr) (ha : a.WF W) (hb 
       exact GenInt.ibig_div_exact _ _ _ _ (Int.natCast_nonneg _) (by omega)
 
 /-- `IBig % IBig` (and `IBig % UBig`, `%=`): remainder with the sign of the dividend -/
-theorem ibig_rem_exact (W : Nat) (hW : 1 ≤ W) (a b : SRepr) (ha : a.WF W) (hb : b.WF W) :
+theorem ibig_rem_exact (W : Nat) (hW : 1 ≤ W) (hW4 : 4 ≤ W) (a b : SRepr) (ha : a.WF W) (hb : b.WF W) :
     (b.value W = 0 → ibigRem W a b = .error .divideByZero) ∧
     (b.value W ≠ 0 → ∃ r, ibigRem W a b = .ok r ∧ r.WF W ∧
       r.value W = impl_ibig_rem (sgn a.neg) (a.mag.value W) (sgn b.neg) (b.mag.value W) ∧
       r.value W = Int.tmod (a.value W) (b.value W)) := by
-  have ⟨d0, d1⟩ := remRepr_spec W hW a.mag b.mag ha.1 hb.1
+  have ⟨d0, d1⟩ := remRepr_spec W hW hW4 a.mag b.mag ha.1 hb.1
   constructor
   · intro h0
     simp only [ibigRem, d0 ((srepr_value_zero_iff W b).mp h0), bind, Except.bind]
@@ -283,13 +287,13 @@ theorem ibig_rem_exact (W : Nat) (hW : 1 ≤ W) (a b : SRepr) (ha : a.WF W) (hb 
       exact GenInt.ibig_rem_exact _ _ _ _ (Int.natCast_nonneg _) (by omega)
 
 /-- `IBig::div_rem` (and `IBig.div_rem(UBig)`, `div_rem_assign`) -/
-theorem ibig_div_rem_exact (W : Nat) (hW : 1 ≤ W) (a b : SRepr) (ha : a.WF W) (hb : b.WF W) :
+theorem ibig_div_rem_exact (W : Nat) (hW : 1 ≤ W) (hW4 : 4 ≤ W) (a b : SRepr) (ha : a.WF W) (hb : b.WF W) :
     (b.value W = 0 → ibigDivRem W a b = .error .divideByZero) ∧
     (b.value W ≠ 0 → ∃ q r, ibigDivRem W a b = .ok (q, r) ∧ q.WF W ∧ r.WF W ∧
       (q.value W, r.value W)
         = impl_ibig_divrem (sgn a.neg) (a.mag.value W) (sgn b.neg) (b.mag.value W) ∧
       q.value W = Int.tdiv (a.value W) (b.value W) ∧ r.value W = Int.tmod (a.value W) (b.value W)) := by
-  have ⟨d0, d1⟩ := divRemRepr_spec W hW a.mag b.mag ha.1 hb.1
+  have ⟨d0, d1⟩ := divRemRepr_spec W hW hW4 a.mag b.mag ha.1 hb.1
   constructor
   · intro h0
     simp only [ibigDivRem, d0 ((srepr_value_zero_iff W b).mp h0), bind, Except.bind]
@@ -311,12 +315,12 @@ theorem ibig_div_rem_exact (W : Nat) (hW : 1 ≤ W) (a b : SRepr) (ha : a.WF W) 
 
 /-- `IBig::div_euclid`: Euclidean quotient (the `add_one` correction for a negative dividend
     with non-zero remainder) -/
-theorem ibig_div_euclid_exact (W : Nat) (hW : 1 ≤ W) (a b : SRepr) (ha : a.WF W) (hb : b.WF W) :
+theorem ibig_div_euclid_exact (W : Nat) (hW : 1 ≤ W) (hW4 : 4 ≤ W) (a b : SRepr) (ha : a.WF W) (hb : b.WF W) :
     (b.value W = 0 → ibigDivEuclid W a b = .error .divideByZero) ∧
     (b.value W ≠ 0 → ∃ q, ibigDivEuclid W a b = .ok q ∧ q.WF W ∧
       q.value W = impl_ibig_div_euclid (sgn a.neg) (a.mag.value W) (sgn b.neg) (b.mag.value W) ∧
       q.value W = a.value W / b.value W) := by
-  have ⟨d0, d1⟩ := divRemRepr_spec W hW a.mag b.mag ha.1 hb.1
+  have ⟨d0, d1⟩ := divRemRepr_spec W hW hW4 a.mag b.mag ha.1 hb.1
   constructor
   · intro h0
     simp only [ibigDivEuclid, d0 ((srepr_value_zero_iff W b).mp h0), bind, Except.bind]
@@ -350,13 +354,13 @@ theorem ibig_div_euclid_exact (W : Nat) (hW : 1 ≤ W) (a b : SRepr) (ha : a.WF 
 
 /-- `IBig::rem_euclid` → `UBig`: Euclidean remainder (`mag1 − r` for a negative dividend with
     non-zero remainder; the subtraction never underflows), both `Sub` impls it can use -/
-theorem ibig_rem_euclid_exact (W : Nat) (hW : 1 ≤ W) (a b : SRepr) (refVal : Bool)
+theorem ibig_rem_euclid_exact (W : Nat) (hW : 1 ≤ W) (hW4 : 4 ≤ W) (a b : SRepr) (refVal : Bool)
     (ha : a.WF W) (hb : b.WF W) :
     (b.value W = 0 → ibigRemEuclid W a b refVal = .error .divideByZero) ∧
     (b.value W ≠ 0 → ∃ r, ibigRemEuclid W a b refVal = .ok r ∧ r.Canon W ∧
       (r.value W : Int) = impl_ibig_rem_euclid (sgn a.neg) (a.mag.value W) (sgn b.neg) (b.mag.value W) ∧
       (r.value W : Int) = a.value W % b.value W) := by
-  have ⟨d0, d1⟩ := remRepr_spec W hW a.mag b.mag ha.1 hb.1
+  have ⟨d0, d1⟩ := remRepr_spec W hW hW4 a.mag b.mag ha.1 hb.1
   constructor
   · intro h0
     have := d0 ((srepr_value_zero_iff W b).mp h0)
@@ -406,14 +410,14 @@ theorem ibig_rem_euclid_exact (W : Nat) (hW : 1 ≤ W) (a b : SRepr) (refVal : B
           hz, ex, pure, Except.pure]
 
 /-- `IBig::div_rem_euclid` → `(IBig, UBig)` -/
-theorem ibig_div_rem_euclid_exact (W : Nat) (hW : 1 ≤ W) (a b : SRepr) (refVal : Bool)
+theorem ibig_div_rem_euclid_exact (W : Nat) (hW : 1 ≤ W) (hW4 : 4 ≤ W) (a b : SRepr) (refVal : Bool)
     (ha : a.WF W) (hb : b.WF W) :
     (b.value W = 0 → ibigDivRemEuclid W a b refVal = .error .divideByZero) ∧
     (b.value W ≠ 0 → ∃ q r, ibigDivRemEuclid W a b refVal = .ok (q, r) ∧ q.WF W ∧ r.Canon W ∧
       (q.value W, (r.value W : Int))
         = impl_ibig_divrem_euclid (sgn a.neg) (a.mag.value W) (sgn b.neg) (b.mag.value W) ∧
       q.value W = a.value W / b.value W ∧ (r.value W : Int) = a.value W % b.value W) := by
-  have ⟨d0, d1⟩ := divRemRepr_spec W hW a.mag b.mag ha.1 hb.1
+  have ⟨d0, d1⟩ := divRemRepr_spec W hW hW4 a.mag b.mag ha.1 hb.1
   constructor
   · intro h0
     have := d0 ((srepr_value_zero_iff W b).mp h0)
@@ -478,12 +482,12 @@ theorem ibig_div_rem_euclid_exact (W : Nat) (hW : 1 ≤ W) (a b : SRepr) (refVal
           Except.bind, hz, ex, pure, Except.pure]
 
 /-- `UBig % IBig` → `UBig` -/
-theorem ubig_ibig_rem_exact (W : Nat) (hW : 1 ≤ W) (a : TRepr) (b : SRepr) (ha : a.Canon W) (hb : b.WF W) :
+theorem ubig_ibig_rem_exact (W : Nat) (hW : 1 ≤ W) (hW4 : 4 ≤ W) (a : TRepr) (b : SRepr) (ha : a.Canon W) (hb : b.WF W) :
     (b.value W = 0 → ubigIbigRem W a b = .error .divideByZero) ∧
     (b.value W ≠ 0 → ∃ r, ubigIbigRem W a b = .ok r ∧ r.Canon W ∧
       (r.value W : Int) = impl_ubig_ibig_rem .Positive (a.value W) (sgn b.neg) (b.mag.value W) ∧
       (r.value W : Int) = Int.tmod (a.value W) (b.value W)) := by
-  have ⟨d0, d1⟩ := remRepr_spec W hW a b.mag ha hb.1
+  have ⟨d0, d1⟩ := remRepr_spec W hW hW4 a b.mag ha hb.1
   constructor
   · intro h0; exact d0 ((srepr_value_zero_iff W b).mp h0)
   · intro hne
@@ -498,7 +502,7 @@ theorem ubig_ibig_rem_exact (W : Nat) (hW : 1 ≤ W) (a : TRepr) (b : SRepr) (ha
     exact GenInt.ubig_ibig_rem_exact _ _ _ (Int.natCast_nonneg _) (by omega)
 
 /-- `UBig.div_rem(IBig)` → `(IBig, UBig)` -/
-theorem ubig_ibig_div_rem_exact (W : Nat) (hW : 1 ≤ W) (a : TRepr) (b : SRepr) (ha : a.Canon W)
+theorem ubig_ibig_div_rem_exact (W : Nat) (hW : 1 ≤ W) (hW4 : 4 ≤ W) (a : TRepr) (b : SRepr) (ha : a.Canon W)
     (hb : b.WF W) :
     (b.value W = 0 → ubigIbigDivRem W a b = .error .divideByZero) ∧
     (b.value W ≠ 0 → ∃ q r, ubigIbigDivRem W a b = .ok (q, r) ∧ q.WF W ∧ r.Canon W ∧
@@ -506,7 +510,7 @@ theorem ubig_ibig_div_rem_exact (W : Nat) (hW : 1 ≤ W) (a : TRepr) (b : SRepr)
         = impl_ubig_ibig_divrem .Positive (a.value W) (sgn b.neg) (b.mag.value W) ∧
       q.value W = Int.tdiv (a.value W) (b.value W) ∧
       (r.value W : Int) = Int.tmod (a.value W) (b.value W)) := by
-  have ⟨d0, d1⟩ := divRemRepr_spec W hW a b.mag ha hb.1
+  have ⟨d0, d1⟩ := divRemRepr_spec W hW hW4 a b.mag ha hb.1
   constructor
   · intro h0
     simp only [ubigIbigDivRem, d0 ((srepr_value_zero_iff W b).mp h0), bind, Except.bind]
@@ -526,10 +530,10 @@ theorem ubig_ibig_div_rem_exact (W : Nat) (hW : 1 ≤ W) (a : TRepr) (b : SRepr)
     simp only [ubigIbigDivRem, e, bind, Except.bind, pure, Except.pure]
 
 /-- `IBig::is_multiple_of`: true exactly when the (truncating) remainder is zero; zero divisor panics -/
-theorem ibig_is_multiple_of_exact (W : Nat) (hW : 1 ≤ W) (a b : SRepr) (ha : a.WF W) (hb : b.WF W) :
+theorem ibig_is_multiple_of_exact (W : Nat) (hW : 1 ≤ W) (hW4 : 4 ≤ W) (a b : SRepr) (ha : a.WF W) (hb : b.WF W) :
     (b.value W = 0 → ibigIsMultipleOf W a b = .error .divideByZero) ∧
     (b.value W ≠ 0 → ibigIsMultipleOf W a b = .ok (decide (Int.tmod (a.value W) (b.value W) = 0))) := by
-  have ⟨d0, d1⟩ := ibig_rem_exact W hW a b ha hb
+  have ⟨d0, d1⟩ := ibig_rem_exact W hW hW4 a b ha hb
   constructor
   · intro h0; simp only [ibigIsMultipleOf, d0 h0, bind, Except.bind]
   · intro hne
@@ -558,7 +562,7 @@ theorem const_divisor_new_value (W : Nat) (hW : 1 ≤ W) (b : TRepr) (hb : b.Can
     forms) gives the same quotient and remainder as plain division.
     (On the tree before /repo commit 2941615 the `%` clause failed for one-word divisors with the
     top bit set and inline dividends with high word ≥ divisor — see corpus/C02.) -/
-theorem const_divisor_eq_plain (W : Nat) (hW : 1 ≤ W) (a b : TRepr) (ha : a.Canon W) (hb : b.Canon W)
+theorem const_divisor_eq_plain (W : Nat) (hW : 1 ≤ W) (hW4 : 4 ≤ W) (a b : TRepr) (ha : a.Canon W) (hb : b.Canon W)
     (hne : b.value W ≠ 0) :
     ∃ c q r q' r' q'' r'', ConstDiv.new W b = .ok c ∧
       divRemConst W a c = .ok (q, r) ∧ divConst W a c = .ok q' ∧ remConst W a c = .ok r' ∧
@@ -568,10 +572,10 @@ theorem const_divisor_eq_plain (W : Nat) (hW : 1 ≤ W) (a b : TRepr) (ha : a.Ca
       q''.value W = a.value W / b.value W ∧ r''.value W = a.value W % b.value W ∧
       q.Canon W ∧ r.Canon W ∧ q'.Canon W ∧ r'.Canon W := by
   obtain ⟨c, e, hv⟩ := (ConstDiv.new_spec W hW b hb).2 hne
-  obtain ⟨q, r, e1, h1, h2, h3, h4⟩ := divRemConst_spec W hW a _ c ha hv
-  obtain ⟨q', e2, h5, h6⟩ := divConst_spec W hW a _ c ha hv
-  obtain ⟨r', e3, h7, h8⟩ := remConst_spec W hW a _ c ha hv
-  obtain ⟨q'', r'', e4, h9, h10, _, _⟩ := (divRemRepr_spec W hW a b ha hb).2 hne
+  obtain ⟨q, r, e1, h1, h2, h3, h4⟩ := divRemConst_spec W hW hW4 a _ c ha hv
+  obtain ⟨q', e2, h5, h6⟩ := divConst_spec W hW hW4 a _ c ha hv
+  obtain ⟨r', e3, h7, h8⟩ := remConst_spec W hW hW4 a _ c ha hv
+  obtain ⟨q'', r'', e4, h9, h10, _, _⟩ := (divRemRepr_spec W hW hW4 a b ha hb).2 hne
   exact ⟨c, q, r, q', r', q'', r'', e, e1, e2, e3, e4, by rw [h1, h9], by rw [h2, h10], by rw [h5, h9],
     by rw [h7, h10], h9, h10, h3, h4, h6, h8⟩
 
@@ -593,16 +597,16 @@ theorem tmod_of_sgn (neg : Bool) (m b : Nat) :
 
 /-- division of an `IBig` through a prepared `ConstDivisor`: truncating quotient and remainder by
     the (positive) divisor, i.e. what plain `IBig / UBig`, `IBig % UBig` give -/
-theorem const_divisor_ibig_exact (W : Nat) (hW : 1 ≤ W) (a : SRepr) (b : TRepr) (ha : a.WF W)
+theorem const_divisor_ibig_exact (W : Nat) (hW : 1 ≤ W) (hW4 : 4 ≤ W) (a : SRepr) (b : TRepr) (ha : a.WF W)
     (hb : b.Canon W) (hne : b.value W ≠ 0) :
     ∃ c q r q' r', ConstDiv.new W b = .ok c ∧
       ibigDivRemConst W a c = .ok (q, r) ∧ ibigDivConst W a c = .ok q' ∧ ibigRemConst W a c = .ok r' ∧
       q.value W = Int.tdiv (a.value W) (b.value W) ∧ r.value W = Int.tmod (a.value W) (b.value W) ∧
       q'.value W = q.value W ∧ r'.value W = r.value W ∧ q.WF W ∧ r.WF W ∧ q'.WF W ∧ r'.WF W := by
   obtain ⟨c, e, hv⟩ := (ConstDiv.new_spec W hW b hb).2 hne
-  obtain ⟨q, r, e1, h1, h2, h3, h4⟩ := divRemConst_spec W hW a.mag _ c ha.1 hv
-  obtain ⟨q', e2, h5, h6⟩ := divConst_spec W hW a.mag _ c ha.1 hv
-  obtain ⟨r', e3, h7, h8⟩ := remConst_spec W hW a.mag _ c ha.1 hv
+  obtain ⟨q, r, e1, h1, h2, h3, h4⟩ := divRemConst_spec W hW hW4 a.mag _ c ha.1 hv
+  obtain ⟨q', e2, h5, h6⟩ := divConst_spec W hW hW4 a.mag _ c ha.1 hv
+  obtain ⟨r', e3, h7, h8⟩ := remConst_spec W hW hW4 a.mag _ c ha.1 hv
   refine ⟨c, withSign q a.neg, withSign r a.neg, withSign q' a.neg, withSign r' a.neg, e, ?_, ?_, ?_,
     ?_, ?_, ?_, ?_, withSign_wf W q _ h3, withSign_wf W r _ h4, withSign_wf W q' _ h6, withSign_wf W r' _ h8⟩
   · simp only [ibigDivRemConst, e1, bind, Except.bind, pure, Except.pure]
@@ -612,6 +616,58 @@ theorem const_divisor_ibig_exact (W : Nat) (hW : 1 ≤ W) (a : SRepr) (b : TRepr
   · rw [withSign_value', h2, srepr_value W a]; exact tmod_of_sgn _ _ _
   · rw [withSign_value', withSign_value', h5, h1]
   · rw [withSign_value', withSign_value', h7, h2]
+
+-- ================================================================== §6 num-modular's dividers
+
+/-- `Normalized2by1Divisor::invert_word`: `m = ⌊(B²−1)/d⌋ − B`, and the crate's
+    `debug_assert!(_hi == 1)` holds -/
+theorem nm_invert_word_exact (W d : Nat) (hW : 1 ≤ W) (hd1 : 2 ^ W ≤ 2 * d) (hd2 : d < 2 ^ W) :
+    NumModular.invertWord W d + 2 ^ W = (2 ^ (2 * W) - 1) / d ∧ NumModular.invertWord W d < 2 ^ W ∧
+    ((2 ^ (2 * W) - 1) / d) / 2 ^ W = 1 :=
+  NumModular.invertWord_spec W d hW hd1 hd2
+
+/-- `Normalized2by1Divisor::div_rem_2by1` (Möller–Granlund Algorithm 4, mirrored with all its
+    wrapping operations) = floor division -/
+theorem nm_div_rem_2by1_exact (W d a : Nat) (hW : 1 ≤ W) (hd1 : 2 ^ W ≤ 2 * d) (hd2 : d < 2 ^ W)
+    (ha : a / 2 ^ W < d) :
+    NumModular.div2by1 W d (NumModular.invertWord W d) a = (a / d, a % d) :=
+  NumModular.div2by1_spec W d a hW hd1 hd2 ha
+
+/-- `Normalized3by2Divisor::invert_double_word` (Algorithm 6) `= ⌊(B³−1)/d⌋ − B` -/
+theorem nm_invert_double_word_exact (W d : Nat) (hW : 1 ≤ W) (hd1 : 2 ^ (2 * W) ≤ 2 * d)
+    (hd2 : d < 2 ^ (2 * W)) :
+    NumModular.invertDoubleWord W d + 2 ^ W = (2 ^ (3 * W) - 1) / d ∧
+    NumModular.invertDoubleWord W d < 2 ^ W :=
+  ⟨(NumModular.invertDoubleWord_spec W d hW hd1 hd2).1, (NumModular.invertDoubleWord_spec W d hW hd1 hd2).2.1⟩
+
+/-- `Normalized3by2Divisor::div_rem_3by2` (Algorithm 5) = floor division -/
+theorem nm_div_rem_3by2_exact (W d aLo aHi : Nat) (hW : 1 ≤ W) (hd1 : 2 ^ (2 * W) ≤ 2 * d)
+    (hd2 : d < 2 ^ (2 * W)) (hlo : aLo < 2 ^ W) (hhi : aHi < d) :
+    NumModular.div3by2 W d (NumModular.invertDoubleWord W d) aLo aHi
+      = ((aLo + 2 ^ W * aHi) / d, (aLo + 2 ^ W * aHi) % d) :=
+  NumModular.div3by2_spec W d aLo aHi hW hd1 hd2 hlo hhi
+
+/-- `Normalized3by2Divisor::div_rem_4by2` = floor division -/
+theorem nm_div_rem_4by2_exact (W d aLo aHi : Nat) (hW : 1 ≤ W) (hd1 : 2 ^ (2 * W) ≤ 2 * d)
+    (hd2 : d < 2 ^ (2 * W)) (hlo : aLo < 2 ^ (2 * W)) (hhi : aHi < d) :
+    NumModular.div4by2 W d (NumModular.invertDoubleWord W d) aLo aHi
+      = ((aLo + 2 ^ (2 * W) * aHi) / d, (aLo + 2 ^ (2 * W) * aHi) % d) :=
+  NumModular.div4by2_spec W d aLo aHi hW hd1 hd2 hlo hhi
+
+/-- the contract parameters of the division model are discharged: on a normalised divisor (which
+    `FastDivideNormalized::new` asserts) the model's `div2by1 / div3by2 / div4by2` (exact floor
+    division under the crate's precondition) ARE the mirrored num-modular algorithms -/
+theorem nm_contracts_discharged (W : Nat) (hW : 1 ≤ W) :
+    (∀ d a, 2 ^ W ≤ 2 * d → d < 2 ^ W → a / 2 ^ W < d →
+      div2by1 W d a = .ok (NumModular.div2by1 W d (NumModular.invertWord W d) a)) ∧
+    (∀ d aLo aHi, 2 ^ (2 * W) ≤ 2 * d → d < 2 ^ (2 * W) → aLo < 2 ^ W → aHi < d →
+      div3by2 W d aLo aHi = .ok (NumModular.div3by2 W d (NumModular.invertDoubleWord W d) aLo aHi)) ∧
+    (∀ d aLo aHi, 2 ^ (2 * W) ≤ 2 * d → d < 2 ^ (2 * W) → aLo < 2 ^ (2 * W) → aHi < d →
+      div4by2 W d aLo aHi = .ok (NumModular.div4by2 W d (NumModular.invertDoubleWord W d) aLo aHi)) := by
+  refine ⟨fun d a h1 h2 h3 => ?_, fun d aLo aHi h1 h2 h3 h4 => ?_, fun d aLo aHi h1 h2 h3 h4 => ?_⟩
+  · rw [NumModular.div2by1_spec W d a hW h1 h2 h3, div2by1_ok W d a h3]
+  · rw [NumModular.div3by2_spec W d aLo aHi hW h1 h2 h3 h4, div3by2_ok W d aLo aHi h4]
+  · rw [NumModular.div4by2_spec W d aLo aHi hW h1 h2 h3 h4, div4by2_ok W d aLo aHi h4]
 
 -- ================================================================== non-vacuity
 
@@ -642,5 +698,10 @@ example : thresholdSimple < (List.replicate 33 (2 ^ 64 - 1)).length ∧
 example : ((ConstDiv.new 64 (.small 0xc000000000000010)).toOption.bind
     (fun c => (remConst 64 (.small (2 ^ 128 - 1)) c).toOption)).map (TRepr.value 64)
     = some 0xaaaaaaaaaaaaac7f := by decide
+
+-- the mirrored 3-by-2 step on 64-bit words with a divisor just above B²/2 and the largest admissible dividend
+example : NumModular.div3by2 64 (2 ^ 127 + 1) (NumModular.invertDoubleWord 64 (2 ^ 127 + 1)) (2 ^ 64 - 1) (2 ^ 127)
+    = ((2 ^ 64 - 1 + 2 ^ 64 * 2 ^ 127) / (2 ^ 127 + 1), (2 ^ 64 - 1 + 2 ^ 64 * 2 ^ 127) % (2 ^ 127 + 1)) := by
+  decide +kernel
 
 end Dashu.Props.C02
